@@ -7,7 +7,7 @@ ids="$@"
 [ -z "$ids" ] && ids="C01 C02 C03 C04 C05 C06 C07 C08 C09 C10 C11 C12 C13 C14 C15 C16 C17 C18 C19 C20"
 R="${REPODIR:-/tmp/cleanrepo}"; export VERIF_REPO="$R"
 cd /verif
-for p in "$dir"/n*/patch.diff; do
+for p in "$dir"/*/patch.diff; do
   n=$(basename $(dirname "$p"))
   [ -n "$(git -C "$R" status --porcelain)" ] && { echo "$R not clean"; exit 2; }
   git -C "$R" apply "$p" || { echo "$n: patch does not apply"; continue; }
